@@ -104,7 +104,6 @@ def run_case(spec, ctx):
     out["nontrivial"] = moved >= 3
     if out["violations"]:
         out["status"] = "violated"
-        out["violations"] = out["violations"][:8]
     for v in out["violations"]:
         F.classify(ID, v, text=base_text)
     out["model_text"] = base_text if out["violations"] else None
